@@ -3,6 +3,7 @@ import Crv.Proofs.Skeleton
 import Crv.Props.C03
 import Crv.Props.C06
 import Crv.Props.C18
+import Crv.Props.C01E2E
 /-!
 C01 — CRL soundness: a certificate listed in a CRL in force is always rejected.
 
@@ -15,6 +16,11 @@ The statement is assembled from four layers, each proved for all inputs of its l
     listed in a loaded CRL is reported revoked or the lookup fails — never "not revoked" (`listed_never_not_revoked`);
 (d) mode composition over the regenerated `verifyProg`: with CRL checking enabled the handshake is rejected,
     whatever OCSP answered (`listed_rejected`).
+(a)→(b) are composed through the persister `Crv.Persist.writesOf` (`CRLPersisterProcessor`, `InsertRevokedCert`) in
+`Crv.Props.C01.E2E` (Crv/Props/C01E2E.lean): the exact write list of an accepted document (`writes_of_enc`), every listed
+entry written and found on both backends for DER and PEM files (`listed_entry_is_written`, `listed_entry_found_der`,
+`listed_entry_found_pem`), nothing else written (`nothing_else_is_written`), a rejected document changes nothing
+(`rejected_load_changes_nothing`, `rejected_refresh_changes_nothing`).
 -/
 namespace Crv.Props.C01
 open Crv Crv.Repo Crv.Generated
@@ -76,6 +82,13 @@ theorem other_location_counts (s : State) (c : Cert) (loc : Loc) (d : DocA) (_hc
 def reader_delivers_every_entry := @Crv.Props.C06.entry_reaches_consumer
 /-- (b) re-export: store soundness without collision hypothesis. -/
 def store_never_loses_an_insert := @Crv.Props.C18.inserted_never_absent
+
+/-- (a)+(b) composed through the persister, re-export: reader → `CRLPersisterProcessor` → store never loses a listed entry. -/
+theorem reader_persister_store (O : Oracle) (d : Doc) (oid : List Nat) (h : HashAlg) (es : Option (List Ext))
+    (num : Option Nat) (wf : WF O d oid h es num) (dec : Persist.EntryDec) (sdec : Store.Kind → Store.Val → Bool)
+    (l : List Bytes) (hl : d.entries = some l) (e : Bytes) (he : e ∈ l) :
+    E2E.NeverAbsent sdec (Persist.writesOf dec (readCRL O (enc d)).events) (E2E.issuerOf dec d) (dec.serial (seqOf e)) :=
+  E2E.listed_entry_found_der O d oid h es num wf dec sdec l hl e he
 
 -- Non-vacuity: a concrete history after which a listed certificate is rejected.
 def exOps : List Op :=
